@@ -247,7 +247,10 @@ def _find_atom_end(s, i):
     raise Tokenize("unterminated atom")
 
 
-def tokenize(q: str):
+def tokenize(q: str, kinds: bool = False):
+    """kinds=True: every atom / in-list token additionally carries "t": the raw template kind it was rendered
+    with (`eq`, `nsw`, `wm`, `in` …; `eqtok` for `field==value`, `ts` for timestamp parts) — used by the C01 drift
+    comparison to tell which template family a leaf went through; ignored by the Lean driver."""
     toks = []
     i = 0
     while i < len(q):
@@ -273,9 +276,13 @@ def tokenize(q: str):
                 if not m:
                     raise Tokenize("timestamp part value")
                 toks.append({"atom": {"k": "ts", "f": _field(f_ch), "unit": cps(unit), "n": cps(m.group(1))}})
+                if kinds: toks[-1]["t"] = "ts"
                 i = m.end()
             else:
-                toks += parse_atom(body)
+                new = parse_atom(body)
+                if kinds:
+                    for t in new: t["t"] = body.split(" ", 1)[0]
+                toks += new
                 i = j + 1
         elif c == "'":
             ch, j = _read_quoted(q, i, "'")
@@ -285,6 +292,7 @@ def tokenize(q: str):
             v = m.group(2)
             a = {"k": "bool", "f": _field(ch), "b": v == "true"} if v in ("true", "false") else {"k": "num", "f": _field(ch), "n": cps(v)}
             toks.append({"natom": a} if m.group(1) == "!=" else {"atom": a})
+            if kinds: toks[-1]["t"] = "eqtok"
             i = m.end()
         else:
             raise Tokenize(f"unexpected {q[i:i+20]!r} at {i}")
